@@ -167,6 +167,7 @@ class Config:
         self.nonneg_atoms = set(kw.get("nonneg_atoms", ()))
         self.sorted_slices = kw.get("sorted_slices", True)
         self.bsearch_contract = kw.get("bsearch_contract", "documented")
+        self.fold_inexact = kw.get("fold_inexact", False)
 
 
 class Machine:
@@ -177,7 +178,7 @@ class Machine:
         self.trace = []
         self.ienv = IntEnv()
         self.order = OrderStore()
-        self.fctx = Ctx(finite=self.cfg.finite, nonzero=self._nonzero)
+        self.fctx = Ctx(finite=self.cfg.finite, nonzero=self._nonzero, fold_inexact=self.cfg.fold_inexact)
         self.pc = []
         self.writes = []
         self.calls = []
